@@ -6,11 +6,43 @@ import hirutil as H
 
 
 class Pat:
+    # structural patterns also match a local whose single `let` initialiser has the required form
+    # (a sub-expression extracted into a `let` is the same value)
+    via_let = False
+
     def m(self, ctx, e):
+        if self.m0(ctx, e):
+            return True
+        if not self.via_let:
+            return False
+        e2 = strip(e)
+        if isinstance(e2, dict) and e2.get('k') == 'local':
+            inits = unique_inits(ctx, e2['name'])
+            depth = getattr(ctx, 'via_depth', 0)
+            if len(inits) == 1 and depth < 3:
+                ctx.via_depth = depth + 1
+                try:
+                    return self.m0(ctx, inits[0])
+                finally:
+                    ctx.via_depth = depth
+        return False
+
+    def m0(self, ctx, e):
         raise NotImplementedError
 
     def __repr__(self):
         return self.__class__.__name__
+
+
+def unique_inits(ctx, name):
+    """initialisers of the bindings called `name`, identical ones (same `let` in sibling arms) merged"""
+    res, seen = [], set()
+    for i in ctx.inits.get(name, []):
+        c = canon(strip(i))
+        if c not in seen:
+            seen.add(c)
+            res.append(i)
+    return res
 
 
 def strip(e, keep_try=False):
@@ -103,17 +135,18 @@ class Ctx:
 
 
 class ANY(Pat):
-    def m(self, ctx, e):
+    def m0(self, ctx, e):
         return True
 
 
 class K(Pat):
+    via_let = True
     """constant with the given value (literal or named const)"""
 
     def __init__(self, v):
         self.v = v
 
-    def m(self, ctx, e):
+    def m0(self, ctx, e):
         v = ctx.const_value(e)
         if v is None or isinstance(v, bool) != isinstance(self.v, bool):
             return v == self.v and v is not None
@@ -131,9 +164,14 @@ class L(Pat):
     def __init__(self, name):
         self.name = name
 
-    def m(self, ctx, e):
+    def m0(self, ctx, e):
         e = strip(e)
         if not (isinstance(e, dict) and e.get('k') == 'local'):
+            # the `let` was inlined: the expression is the local's (single) initialiser
+            inits = unique_inits(ctx, self.name)
+            if len(inits) == 1 and isinstance(e, dict) and e.get('k') in ('call', 'mcall', 'binary', 'cast') \
+                    and canon(strip(inits[0])) == canon(e):
+                return True
             return False
         if ctx.names is None or self.name in ctx.names:
             return e.get('name') == self.name
@@ -148,12 +186,13 @@ class L(Pat):
 
 
 class F(Pat):
+    via_let = True
     """field access chain ending in `.name` (on anything matching base)"""
 
     def __init__(self, base, name):
         self.base, self.name = base, name
 
-    def m(self, ctx, e):
+    def m0(self, ctx, e):
         e = strip(e)
         return isinstance(e, dict) and e.get('k') == 'field' and e.get('n') == self.name and self.base.m(ctx, e['e'])
 
@@ -162,12 +201,13 @@ class F(Pat):
 
 
 class M(Pat):
+    via_let = True
     """method call by name"""
 
     def __init__(self, name, recv=None, *args, defsuffix=None):
         self.name, self.recv, self.args, self.defsuffix = name, recv or ANY(), args, defsuffix
 
-    def m(self, ctx, e):
+    def m0(self, ctx, e):
         e = strip(e)
         if isinstance(e, dict) and e.get('k') == 'mcall' and e.get('name') != self.name and e.get('def'):
             # renamed private method: compare with the reference name
@@ -194,12 +234,13 @@ class M(Pat):
 
 
 class C(Pat):
+    via_let = True
     """call of a path whose resolved definition / full name contains `name`"""
 
     def __init__(self, name, *args):
         self.name, self.args = name, args
 
-    def m(self, ctx, e):
+    def m0(self, ctx, e):
         e = strip(e)
         if not (isinstance(e, dict) and e.get('k') == 'call' and e['f'].get('k') == 'path'):
             return False
@@ -215,10 +256,11 @@ class C(Pat):
 
 
 class BIN(Pat):
+    via_let = True
     def __init__(self, op, a, b, commutative=False):
         self.op, self.a, self.b, self.comm = op, a, b, commutative
 
-    def m(self, ctx, e):
+    def m0(self, ctx, e):
         e = strip(e)
         if not (isinstance(e, dict) and e.get('k') == 'binary' and e.get('op') == self.op):
             return False
@@ -231,19 +273,21 @@ class BIN(Pat):
 
 
 class UN(Pat):
+    via_let = True
     def __init__(self, op, a):
         self.op, self.a = op, a
 
-    def m(self, ctx, e):
+    def m0(self, ctx, e):
         e = strip(e)
         return isinstance(e, dict) and e.get('k') == 'unary' and e.get('op') == self.op and self.a.m(ctx, e['e'])
 
 
 class CAST(Pat):
+    via_let = True
     def __init__(self, a, ty):
         self.a, self.ty = a, ty
 
-    def m(self, ctx, e):
+    def m0(self, ctx, e):
         e = strip(e)
         return isinstance(e, dict) and e.get('k') == 'cast' and e.get('ty') == self.ty and self.a.m(ctx, e['e'])
 
@@ -257,7 +301,7 @@ class CLAMP(Pat):
     def __init__(self, x, lo, hi):
         self.x, self.lo, self.hi = x, lo, hi
 
-    def m(self, ctx, e):
+    def m0(self, ctx, e):
         return (M('clamp', self.x, self.lo, self.hi).m(ctx, e) or
                 M('min', M('max', self.x, self.lo), self.hi).m(ctx, e) or
                 M('max', M('min', self.x, self.hi), self.lo).m(ctx, e))
@@ -273,7 +317,7 @@ class CALLARG(Pat):
     def __init__(self, name, p):
         self.name, self.p = name, p
 
-    def m(self, ctx, e):
+    def m0(self, ctx, e):
         e = strip(e)
         if not isinstance(e, dict):
             return False
@@ -291,7 +335,7 @@ class TRY(Pat):
     def __init__(self, a):
         self.a = a
 
-    def m(self, ctx, e):
+    def m0(self, ctx, e):
         e = strip(e, keep_try=True)
         return H.is_try(e) and self.a.m(ctx, H.try_inner(e))
 
@@ -305,7 +349,7 @@ class P(Pat):
     def __init__(self, suffix):
         self.suffix = suffix
 
-    def m(self, ctx, e):
+    def m0(self, ctx, e):
         e = strip(e)
         return isinstance(e, dict) and e.get('k') == 'path' and e.get('def', '').endswith(self.suffix)
 
@@ -319,7 +363,7 @@ class VIA(Pat):
     def __init__(self, p):
         self.p = p
 
-    def m(self, ctx, e):
+    def m0(self, ctx, e):
         if self.p.m(ctx, e):
             return True
         e2 = strip(e)
@@ -337,7 +381,7 @@ class OR(Pat):
     def __init__(self, *ps):
         self.ps = ps
 
-    def m(self, ctx, e):
+    def m0(self, ctx, e):
         return any(p.m(ctx, e) for p in self.ps)
 
 
@@ -345,7 +389,7 @@ class IF(Pat):
     def __init__(self, c, t, e=None):
         self.c, self.t, self.e = c, t, e
 
-    def m(self, ctx, x):
+    def m0(self, ctx, x):
         x = strip(x)
         if not (isinstance(x, dict) and x.get('k') == 'if'):
             return False
@@ -356,13 +400,61 @@ class IF(Pat):
         return True
 
 
+class RET(Pat):
+    """`return p`"""
+
+    def __init__(self, p=None):
+        self.p = p
+
+    def m0(self, ctx, e):
+        if not (isinstance(e, dict) and e.get('k') == 'ret'):
+            return False
+        if self.p is None:
+            return True
+        return 'e' in e and self.p.m(ctx, e['e'])
+
+    def __repr__(self):
+        return 'RET(%r)' % (self.p,)
+
+
+class INDEX(Pat):
+    via_let = True
+
+    def __init__(self, base, idx):
+        self.base, self.idx = base, idx
+
+    def m0(self, ctx, e):
+        e = strip(e)
+        return isinstance(e, dict) and e.get('k') == 'index' and self.base.m(ctx, e['e']) and self.idx.m(ctx, e['i'])
+
+    def __repr__(self):
+        return 'INDEX(%r,%r)' % (self.base, self.idx)
+
+
+class BREAK(Pat):
+    def m0(self, ctx, e):
+        return isinstance(e, dict) and e.get('k') == 'break'
+
+
+class ASSIGNOP(Pat):
+    def __init__(self, op, l, r):
+        self.op, self.l, self.r = op, l, r
+
+    def m0(self, ctx, e):
+        return isinstance(e, dict) and e.get('k') == 'assignop' and e.get('op') == self.op and \
+            self.l.m(ctx, e['l']) and self.r.m(ctx, e['r'])
+
+    def __repr__(self):
+        return 'ASSIGNOP(%s,%r,%r)' % (self.op, self.l, self.r)
+
+
 class CONTAINS(Pat):
     """some sub-expression matches p"""
 
     def __init__(self, p):
         self.p = p
 
-    def m(self, ctx, e):
+    def m0(self, ctx, e):
         found = []
 
         def visit(n, anc):
@@ -377,6 +469,8 @@ def find(ctx, root, pat):
 
     def visit(n, anc):
         ctx.env = {}
+        if n.get('k') == 'local' and not isinstance(pat, L):
+            return          # a use of a let-bound value is not a second occurrence of the expression
         if pat.m(ctx, n):
             out.append((n, anc))
     H.walk(root, visit)
